@@ -20,13 +20,17 @@ ASSUMPTIONS = [
     A_LOG, A_NOALIAS, A_COOP,
     "a done-callback is user code: it may suspend (yield point; other tasks run), raise any Exception, or be "
     "cancelled at its await; while it runs, rows of OTHER tasks in the registries may change arbitrarily (subject to "
-    "I_unique) but the rows of the exiting task do not (only its own run_coro writes them after exit began)",
+    "I_unique) but the rows of the exiting task do not (only its own run_coro writes them after exit began) - this assumption "
+    "is what hid a genuine defect: a done-callback that edits the callback table of ITS OWN task (task.remove_done_callback / "
+    "task.add_done_callback) is outside it; that case is covered by the bounded stand-in bounded.callback-edits-table only",
     "ast_ctx.call_func(callback, None, *args, **kwargs) calls the callback once with those arguments (C03 territory)",
     "independence / non-delay of tasks is asyncio's scheduling (not decided); hass.async_add_executor_job runs the "
     "job off-loop and returns its value or raises its exception (assumed)",
     "A-REAPER: Function.reaper_cancel(task) eventually cancels the task (liveness, not decided)",
 ]
-NOT_DECIDED = ["a run never *delays* another (scheduler fairness)", "the cancelled task has ended (liveness)"]
+NOT_DECIDED = ["a run never *delays* another (scheduler fairness)", "the cancelled task has ended (liveness)",
+               "done-callbacks that edit their own task's callback table while the table is being run: bounded histories only "
+               "(the loop contract of run_coro#for0 assumes the exiting task's rows are stable)"]
 SHAPE_BOUNDS = {"arguments stored with a done-callback": "opaque tuple / dict (identity compared)"}
 LEVEL_TEXT = ("Proof, unbounded in registry contents and in the number of callbacks (loop invariant over the visited "
               "set): on every exit mode of Function.run_coro (return / exception / cancellation) the task disappears "
@@ -498,6 +502,11 @@ def h_executor(eng):
         ob.witness = {"signature": f"executor:{outcome}", "outcome": outcome}
 
 
+def bounded_callback_edits(seed):
+    from replay.native import run_native
+    return run_native("c14_callback_edits_callbacks", {"seed": seed}, timeout=300)
+
+
 def replay_executor(wj):
     from replay.native import run_native
     return run_native("c14_executor", wj, timeout=120)
@@ -512,6 +521,8 @@ def harnesses():
         Harness("reaper", h_reaper, units=[(F_PY, "Function.init")]),
         Harness("user_task_cancel", h_cancel, units=[(F_PY, "Function.user_task_cancel")]),
         Harness("task.create", h_task_create, units=[(T_PY, "TrigTime.init")]),
+        Harness("bounded.callback-edits-table", bounded_callback_edits, units=[(F_PY, "Function.run_coro"), (F_PY, "Function.task_add_done_callback"),
+                                                                               (F_PY, "Function.user_task_remove_done_callback")], kind="bounded"),
         Harness("task.executor", h_executor, units=[(T_PY, "TrigTime.user_task_executor")], replay=replay_executor),
         mutator_closure_harness("C14", "task-registries", {"our_tasks": {"cls", "Function"}, "task2cb": {"cls", "Function"},
                                                            "task2context": {"cls", "Function"}},
